@@ -188,6 +188,8 @@ async def main():
         obs["body_outcome"] = "raised:" + type(e).__name__ + ":" + str(e)[:100]
     # synchronously, before the loop gets another turn: the property speaks of the moment the context is left
     obs["states_at_exit"] = {str(p): proc_state(p) for p in obs["pids"]}
+    at_exit = fd_table()
+    obs["fd_new_at_exit"] = sorted(v for k, v in at_exit.items() if k not in obs["fds_before"])
     marks["exit_end"] = time.monotonic()
     if "exit_start" in marks:
         obs["exit_duration"] = marks["exit_end"] - marks["exit_start"]
